@@ -35,6 +35,14 @@ ASSUMPTIONS = [
     "sigmoids) or 2^-19/u (exp based) code units because the library evaluates "
     "the surrogate in float32; that much is added to the adjacency window and "
     "to the mean tolerance",
+    "generated magnitudes (all families, walks and Hypothesis) are exactly 0 "
+    "or >= 1e-30 (the tensor strategies snap |v| < 1e-20 to 0), so a non-zero "
+    "difference between a code and its input is never a float32 subnormal, "
+    "which the TF CPU kernels flush to zero inside x + (xq - x); the only "
+    "smaller inputs are the deliberate probes: inference threshold probes "
+    "(bit-equality with the twin only) and the zero/denormal channels of "
+    "binary(use_stochastic_rounding) (finiteness; code set / statistics only "
+    "for alpha None or constant, where the codes do not depend on the data)",
     "constant alpha restricted to powers of two; fixed-point inputs inside "
     "2^22 steps (C01's domain)",
     "quantized_relu with negative_slope*2^(bits-1)<1 excluded (C01-KF2: the "
